@@ -50,6 +50,7 @@ type x15Scn struct {
 	sysBase int
 	root    map[int]bool
 	xn      map[string]int // rows already printed, per other topic
+	xseq    map[string]int // store seqid at the last listing of the rows, per other topic
 }
 
 // the other topics: key -> real (expanded) name
@@ -165,10 +166,16 @@ func (x *x15Scn) emitExtra() {
 		if key == "sys" {
 			base = x.sysBase
 		}
-		d := memverif.DumpTopic(name)
+		// the topic row is one map lookup; the rows are listed (a scan of the whole message table) only when it moved
+		exists, stSeq := false, 0
+		if key == "G" || key == "sys" {
+			if st, err := store.Topics.Get(name); err == nil && st != nil {
+				exists, stSeq = true, st.SeqId
+			}
+		}
 		call, timer, seqid, att := "none", "0", 0, ""
-		if d.Exists {
-			seqid = d.SeqId - base
+		if exists {
+			seqid = stSeq - base
 		}
 		if t := globals.hub.topicGet(name); t != nil {
 			if c := t.currentCall; c != nil {
@@ -188,9 +195,11 @@ func (x *x15Scn) emitExtra() {
 			att = strings.Join(as, ",")
 		}
 		fmt.Fprintf(sc.out, "xt %s call=%s timer=%s seqid=%d att=%s\n", key, call, timer, seqid, att)
-		if !d.Exists {
+		if !exists || x.xseq[key] == stSeq {
 			continue
 		}
+		x.xseq[key] = stSeq
+		d := memverif.DumpTopic(name)
 		var ml []string
 		for _, m := range d.Msgs {
 			if m.Seq <= base {
@@ -349,7 +358,7 @@ func TestVerifCallX(t *testing.T) {
 			kv := vKV(w[2:])
 			sc := &cScn{id: w[1], uids: map[int]types.Uid{}, uidIdx: map[types.Uid]int{}, sess: map[int]*vSess{},
 				sessUser: map[int]int{}, dead: map[int]bool{}, onMe: map[int]bool{}, out: out}
-			x = &x15Scn{cScn: sc, ext: kv["x"] == "1", root: map[int]bool{}, xn: map[string]int{}}
+			x = &x15Scn{cScn: sc, ext: kv["x"] == "1", root: map[int]bool{}, xn: map[string]int{}, xseq: map[string]int{}}
 			if kv["cfg"] == "1" {
 				globals.iceServers = []iceServer{{Urls: []string{"stun:verif.invalid"}}}
 			} else {
@@ -372,6 +381,7 @@ func TestVerifCallX(t *testing.T) {
 				xReloadSys()
 				if ts := globals.hub.topicGet("sys"); ts != nil {
 					x.sysBase = ts.lastID
+					x.xseq["sys"] = ts.lastID
 				} else {
 					t.Fatal("sys topic is not loaded")
 				}
